@@ -150,15 +150,18 @@ func H19_NullReused() {
 	}
 }
 
-
 // H19_ManyValues: a long history of distinct values (more than any small
 // table or slab would hold), then symbolic ones: everything returned earlier
 // keeps its value, interned == plain, and nothing aliases the input buffer.
-func H19_ManyValues() {
+func H19_ManyValues() { manyValues(1100) }
+
+// H19_ManyValues_T (thorough): 4200 distinct values (past a 4096-entry bound).
+func H19_ManyValues_T() { manyValues(4200) }
+
+func manyValues(N int) {
 	vrt.MapOrder(false)
-	vrt.StepLimit(400_000_000)
-	vrt.LoopBound(8192)
-	const N = 1100
+	vrt.StepLimit(4_000_000_000)
+	vrt.LoopBound(16384)
 	p := newPlenc(cfgDef)
 	var buf [16]byte
 	got := make([]string, 0, N+2)
@@ -182,7 +185,10 @@ func H19_ManyValues() {
 		decode(vrt.String(idx("s", step), 2))
 	}
 	// spot checks over the whole history, ends and the usual table sizes included
-	for _, i := range []int{0, 1, 254, 255, 256, 511, 512, 1022, 1023, 1024, 1025, N - 1, N, N + 1} {
+	for _, i := range []int{0, 1, 254, 255, 256, 511, 512, 1022, 1023, 1024, 1025, 2047, 2048, 4094, 4095, 4096, 4097, N - 1, N, N + 1} {
+		if i > N+1 {
+			continue
+		}
 		vrt.Assert("strings returned earlier never change", got[i] == want[i])
 	}
 }
